@@ -25,8 +25,17 @@ pub mod prelude {
 }
 pub mod slice;
 
+/// rayon's global pool comes into being at its first use (a parallel iterator driven outside an
+/// installed pool, `current_num_threads`, `build_global`) and lives as long as the process:
+/// `build_global` fails from then on. Process-lifetime state, like the real thing.
+static GLOBAL_POOL_EXISTS: std::sync::atomic::AtomicBool = std::sync::atomic::AtomicBool::new(false);
+pub(crate) fn touch_global_pool() -> bool {
+    GLOBAL_POOL_EXISTS.swap(true, std::sync::atomic::Ordering::Relaxed)
+}
+
 /// Number of workers of the modelled pool for the current run.
 pub fn current_num_threads() -> usize {
+    touch_global_pool();
     simctx::with(|c| if c.active { c.pool.max(1) } else { 1 })
 }
 
@@ -138,10 +147,10 @@ pub struct ThreadPoolBuilder {
     n: usize,
 }
 #[derive(Debug)]
-pub struct ThreadPoolBuildError;
+pub struct ThreadPoolBuildError(&'static str);
 impl std::fmt::Display for ThreadPoolBuildError {
     fn fmt(&self, f: &mut std::fmt::Formatter<'_>) -> std::fmt::Result {
-        write!(f, "thread pool build error")
+        write!(f, "{}", self.0)
     }
 }
 impl std::error::Error for ThreadPoolBuildError {}
@@ -160,8 +169,22 @@ impl ThreadPoolBuilder {
     pub fn build(self) -> Result<ThreadPool, ThreadPoolBuildError> {
         Ok(ThreadPool { _n: self.n })
     }
+    /// Accepted and ignored: the modelled workers are simulated tasks.
+    pub fn stack_size(self, _bytes: usize) -> Self {
+        self
+    }
+    pub fn thread_name<F>(self, _f: F) -> Self
+    where
+        F: FnMut(usize) -> String + 'static,
+    {
+        self
+    }
     pub fn build_global(self) -> Result<(), ThreadPoolBuildError> {
-        Ok(())
+        if touch_global_pool() {
+            Err(ThreadPoolBuildError("The global thread pool has already been initialized."))
+        } else {
+            Ok(())
+        }
     }
 }
 impl ThreadPool {
